@@ -448,8 +448,11 @@ class ExcelCompiler:
             value = (value, )
 
         cell_or_range = self.cell_map[address]
+        old_value = cell_or_range.value
 
-        if cell_or_range.value != value:  # pragma: no branch
+        # 1 == True and 0 == False in python, but not in excel
+        if old_value != value or (
+                isinstance(old_value, bool) != isinstance(value, bool)):  # pragma: no branch
             # need to be able to 'set' an empty cell, set to not None
             cell_or_range.value = value
 
